@@ -689,3 +689,31 @@ pub fn drain(w: &mut World, rounds: usize) -> bool {
     }
     w.live_callers().is_empty()
 }
+
+/// Replay entry point shared by the engine-A binaries: find the configuration named in
+/// the replay file among `candidates`, re-execute the history twice, report.
+pub fn replay_main<S: Scenario>(prop: &str, path: &str, candidates: Vec<S>) -> ! {
+    let v = crate::load_replay(path);
+    let label = v["config"].as_str().unwrap_or("");
+    let Some(hist) = dec_hist(&v["history"]) else {
+        eprintln!("MACHINERY replay file has no decodable history");
+        std::process::exit(2);
+    };
+    let kind = v["kind"].as_str().unwrap_or("");
+    for cfg in candidates {
+        if cfg.label() == label {
+            let (hit, log) = replay(&cfg, &hist, kind);
+            for l in log {
+                println!("{l}");
+            }
+            if hit {
+                println!("VIOLATION property={prop} replay={path}");
+                std::process::exit(1);
+            }
+            println!("replay: the recorded violation does not occur on the current tree");
+            std::process::exit(0);
+        }
+    }
+    eprintln!("MACHINERY no configuration labelled '{label}'");
+    std::process::exit(2);
+}
